@@ -1,5 +1,7 @@
 import FeatModel.Model.LA.Csr
 import FeatModel.Model.LA.Banded
+import FeatModel.Model.LA.Cscr
+import FeatModel.Model.LA.Bcsr
 /-
 Where does the index type `IT_ = std::uint32_t` enter the `Apply` kernels?  All index *arithmetic* is done in `Index`
 (64 bit: `rows + columns - Index(offsets[i])`, `a * rows + l`, `l + offsets[a] + 1 - rows` with `l : Index`, pointer
@@ -27,4 +29,14 @@ def firstUpper32 (A : Banded α) : Nat :=
   (List.range A.noo).foldl (fun k c => if k = c ∧ trunc32 (A.offsets.getD c 0 + 1) < A.rows then c + 1 else k) 0
 end Banded
 
+end FeatModel.LA
+
+namespace FeatModel.LA
+namespace Cscr
+def store32 (A : Cscr α) : Cscr α :=
+  { A with rowPtr := A.rowPtr.map trunc32, colInd := A.colInd.map trunc32, rowNumbers := A.rowNumbers.map trunc32 }
+end Cscr
+namespace Bcsr
+def store32 (A : Bcsr α) : Bcsr α := { A with rowPtr := A.rowPtr.map trunc32, colInd := A.colInd.map trunc32 }
+end Bcsr
 end FeatModel.LA
